@@ -218,8 +218,21 @@ func runC13ForkLimit(r *mon.Run, stream uint64) {
 		for i := range set {
 			in[i] = set[i].DeepCopy()
 		}
-		dist := int(from.Height-trunk.Height) + lb
-		cs := c13Case{Stream: stream, Params: p, From: from.Idx, To: b.Idx, Revert: int(from.Height - trunk.Height), Apply: lb, Set: describeV2Set(set)}
+		// the real fork point: the first blocks of the two branches can coincide
+		// (an empty generated block equals the empty block built for the other
+		// branch when miner and timestamp agree)
+		x, y := from, b
+		for x.Height > y.Height {
+			x = x.Parent
+		}
+		for y.Height > x.Height {
+			y = y.Parent
+		}
+		for x != y {
+			x, y = x.Parent, y.Parent
+		}
+		dist := int(from.Height-x.Height) + int(b.Height-x.Height)
+		cs := c13Case{Stream: stream, Params: p, From: from.Idx, To: b.Idx, Revert: int(from.Height - x.Height), Apply: int(b.Height - x.Height), Set: describeV2Set(set)}
 		var out []types.V2Transaction
 		var uerr error
 		if pn := mon.Guard(func() { out, uerr = cm.UpdateV2TransactionSet(in, from.L.State.Index, b.L.State.Index) }); pn != nil {
@@ -227,6 +240,9 @@ func runC13ForkLimit(r *mon.Run, stream uint64) {
 			return
 		}
 		r.Eval()
+		if debugOn {
+			fmt.Println("DEBUG forklimit: from", from.L.State.Index, "to", b.L.State.Index, "trunk", trunk.L.State.Index, "la", la, "lb", lb, "dist", dist, "err", uerr, "set", len(set), "out", len(out))
+		}
 		r.Count(fmt.Sprintf("fork_path:over_limit=%v:ok=%v", dist > 144, uerr == nil), 1)
 		if dist > 144 {
 			if uerr == nil {
